@@ -7,7 +7,8 @@ Builds mirgen-dump from /repo's working tree, then runs liftcheck on
   * the one-instruction families of gen_oneinsn.py (int, branch, fp, ld, misc) at each -O level,
   * the same with --near-externs (rel32 calls) for the misc family,
   * every /repo/mir-tests/test*.mir that the generator accepts, at each level,
-  * the trampolines dump (thunks, wrappers, bb thunks, ff_call / interp shim for the default prototypes).
+  * the trampolines dump (thunks, wrappers, bb thunks, ff_call / interp shim for the default prototypes),
+  * the hand-written snippet corpus of gen_asmcorpus.py (instruction forms the generator does not emit).
 Prints one line per dump and a total; exit 0 iff no region disagrees and the lifter accepted everything.
 """
 import concurrent.futures as cf
@@ -75,6 +76,14 @@ def main():
             for lv in levels:
                 dump("%s-O%d" % (b, lv), ["-O%d" % lv, t], os.path.join(tmp, "%s.O%d.json" % (b, lv)))
         dump("trampolines", ["--trampolines"], os.path.join(tmp, "tramp.json"))
+        # hand-written snippets for instructions / forms the generator does not emit in the corpus above
+        asmj = os.path.join(tmp, "asm.json")
+        with open(asmj, "w") as f:
+            p = subprocess.run([sys.executable, os.path.join(HERE, "gen_asmcorpus.py")], stdout=f, stderr=subprocess.PIPE, text=True)
+        if p.returncode == 0:
+            jobs.append(("asm-corpus", asmj))
+        else:
+            notes.append("ASM-CORPUS not built: " + p.stderr[-200:])
 
         tot_regions = tot_agree = tot_skip = tot_bad = 0
         failed = False
